@@ -73,9 +73,10 @@ class Prepared:
                 it._lut = None
                 if it.uses_lut:
                     if it.ifm.bits == 16:
-                        it._lut = (self.hw["lut_addr"], HW.LUT_BYTES)
+                        it._lut = (self.hw["lut_addr"], HW.LUT_BYTES)  # 512 x 32-bit (base, slope) entries
                     else:
-                        it._lut = (self.hw["lut_addr"] + 256 * it.lut_index, 256)
+                        # 256 entries of the OFM's width, starting at 256-byte slot lut_index
+                        it._lut = (self.hw["lut_addr"] + 256 * it.lut_index, 256 * max(1, it.ofm.bits // 8))
                 ub = HW.usable_banks(acc, it.uses_lut) * HW.BANK
                 it._shram_written = (0, ub)
                 lo = max(0, self.hw["lut_addr"])
@@ -89,22 +90,27 @@ class Prepared:
 
 
 def resolve(mem, region, addrs, width, viol, op, what, write):
-    """C02: region known, every byte inside the published extent, no write to region 0.  -> (space, phys addrs) or None."""
+    """C02: region known, every byte inside the published extent, no write to region 0.
+    -> (space, phys addrs of the in-extent bytes, mask | None) or None.  An access that is partly outside is reported and then
+    performed on its in-extent part only, so that the execution stays defined (and identical for any burst split)."""
     if region not in mem.regions:
         viol.append(Violation(prop="C02", oracle="unknown_region", op=op.idx, what=what, region=region))
         return None
     space, base, size = mem.regions[region]
     if len(addrs) == 0:
-        return space, addrs
+        return space, addrs, None
     lo = int(addrs.min())
     hi = int(addrs.max()) + width
+    mask = None
     if lo < 0 or hi > size:
-        viol.append(Violation(prop="C02", oracle="out_of_extent", op=op.idx, what=what, region=region, lo=lo, hi=hi, extent=size))
-        return None
+        if not any(v.get("oracle") == "out_of_extent" and v.get("op") == op.idx and v.get("what") == what for v in viol):
+            viol.append(Violation(prop="C02", oracle="out_of_extent", op=op.idx, what=what, region=region, lo=lo, hi=hi, extent=size))
+        mask = (addrs >= 0) & (addrs + width <= size)
+        addrs = addrs[mask]
     if write and region == 0:
         viol.append(Violation(prop="C02", oracle="write_to_constants", op=op.idx, what=what))
         return None
-    return space, addrs + base
+    return space, addrs + base, mask
 
 
 class Run:
@@ -147,10 +153,14 @@ class Run:
         r = resolve(self.mem, region, addrs, 1, self.viol, op, what, False)
         if r is None:
             return None
-        space, pa = r
+        space, pa, mask = r
         t = self.mem.tags[space][pa]
         if check:
-            self._check_tags(op, what, region, addrs, t)
+            self._check_tags(op, what, region, addrs if mask is None else addrs[mask], t)
+        if mask is not None:
+            full = np.full(len(addrs), POISON, dtype=np.int64)  # bytes outside the extent: undefined content
+            full[mask] = t
+            t = full
         return t
 
     def _read(self, op, what, region, addrs, key):
@@ -161,7 +171,9 @@ class Run:
         r = resolve(self.mem, region, addrs, 1, self.viol, op, what, True)
         if r is None:
             return
-        space, pa = r
+        space, pa, mask = r
+        if mask is not None and isinstance(tag, np.ndarray):
+            tag = tag[mask]
         self.mem.tags[space][pa] = tag
 
     def _tag(self, op, job):
